@@ -177,11 +177,21 @@ ObjOuts(C, mem, r) ==
   ELSE LET all == GaaBytes(C, mem, c, i, 1) IN
        IF all = <<>> THEN { AnyFail(mem) } ELSE { [k |-> "okbytes", st |-> 0, ext |-> <<>>, data |-> all, mem |-> mem] }
 
-SingleOuts(C, mem, r) ==
+PlainOuts(C, mem, r) ==
   IF r.svc \in {"read", "readf"} THEN ReadOuts(C, mem, r)
   ELSE IF r.svc \in {"write", "writef"} THEN WriteOuts(C, mem, r)
   ELSE IF r.svc \in {"gal", "gaa"} THEN ObjOuts(C, mem, r)
   ELSE AttrOuts(C, mem, r)
+\* A tag may be configured with a forced error code (optional field `error' of its configuration; the simulator's way of playing a
+\* failing device): a tag service that would have succeeded is answered with that status and no data instead.
+\* DEVIATION(code, Logix.request): the code forces the status AFTER carrying the request out -- a forced-failure WRITE has been
+\* performed.  The generic attribute services ignore the forced error.
+Forced(C, t) == IF "error" \in DOMAIN C.tags[t] THEN C.tags[t].error ELSE 0
+SingleOuts(C, mem, r) ==
+  LET outs == PlainOuts(C, mem, r) IN
+  IF r.tag = 0 \/ r.svc \notin {"read", "readf", "write", "writef"} THEN outs
+  ELSE IF Forced(C, r.tag) = 0 THEN outs
+  ELSE { IF o.k = "ok" THEN Err(Forced(C, r.tag), <<>>, o.mem) ELSE o : o \in outs }
 
 ----------------------------------------------------------------------------
 (* Wire form of requests and of outcomes *)
